@@ -104,6 +104,19 @@ def desugar(loc, relfile, fn_paths, rules, _pass=0, optional=()):
                     records.append({"fn": fp, "rule": "D17 for x in LO..=HI { B } (usize bounds)  =>  let mut k: u128 = LO; while k <= HI { let x = k as usize; k += 1; B }   (the counter is a u128 so that HI = usize::MAX does not overflow)",
                                     "original": src[v["call"][0]:v["call"][1]], "rewritten": new})
                     continue
+                if v["rule"] == "D4" and "D44" in rules and "D4" not in rules:
+                    recv = src[v["recv"][0]:v["recv"][1]]
+                    pat = src[v["pat"][0]:v["pat"][1]]
+                    body = src[v["body"][0]:v["body"][1]]
+                    m_it = re.search(r"\s*\.iter\(\)\s*$", recv)
+                    if not m_it or not pat.startswith("&"):
+                        raise Undecided(f"{fp}: D44 needs `X.iter().for_each(|&p| B)`")
+                    recv0 = recv[:m_it.start()]
+                    new = (f"{{ let mut pv_e: usize = 0; while pv_e < {recv0}.len() {{ let {pat[1:].strip()} = {recv0}[pv_e]; pv_e += 1; {body}; }} }}")
+                    rewrites.append((v["call"][0], v["call"][1], new))
+                    records.append({"fn": fp, "rule": "D44 X.iter().for_each(|&p| B)  =>  { let mut e = 0; while e < X.len() { let p = X[e]; e += 1; B; } }   (X is not changed by B)",
+                                    "original": src[v["call"][0]:v["call"][1]], "rewritten": new})
+                    continue
                 if v["rule"] not in rules:
                     continue
                 if v["rule"] == "D18":
@@ -362,6 +375,8 @@ def desugar(loc, relfile, fn_paths, rules, _pass=0, optional=()):
                     if (tail != "pv_c" and "ret" in it and src[it["ret"][0]:it["ret"][1]].strip().startswith("Vec<")
                             and src[v["call"][1]:it["body_close"]].strip() == ""):
                         tail = "pv_c"
+                    if tail == "pv_c.into()" and "D15:boxed" in rules:
+                        tail = "pv_into_boxed(pv_c)"     # the target is a boxed slice (stub: same elements)
                     new = (f"{{ let mut pv_c = Vec::new(); let mut pv_k: usize = 0; while pv_k < {recv}.len() {{ {bind} pv_k += 1; pv_c.push({body}); }} {tail} }}")
                     rewrites.append((v["call"][0], v["call"][1], new))
                     records.append({"fn": fp, "rule": "D15 X.iter().map(|p| E).collect()  =>  { let mut out = Vec::new(); index loop { out.push(E) } out.into() }   (assumes FromIterator and From<Vec<_>> of the target agree)",
@@ -818,6 +833,8 @@ class Unit:
             if item.get("desugar") or item.get("desugar_optional"):
                 # desugar_optional: rules that only apply to shapes the pinned text does not have (a change may introduce them)
                 targets = ([item["path"] + "::" + m for m in item["methods"]] if "methods" in item else [item["path"]])
+                # optional methods that the impl has are desugared like the others
+                targets += [item["path"] + "::" + m for m in item.get("optional_methods", []) if loc["by_path"].get(item["path"] + "::" + m)]
                 loc, recs = desugar(loc, relfile, targets, list(item.get("desugar", [])) + list(item.get("desugar_optional", [])),
                                     optional=tuple(item.get("desugar_optional", [])))
                 desugared += recs
@@ -880,6 +897,24 @@ class Unit:
                     text = text.replace(a, b)
                     deviations.append(f"{iid}: macro path rewrite `{a}` -> `{b}` (E2)")
                 slots[iid] = [("text", text.strip() + "\n")]
+            elif item.get("kind") == "tail":
+                # the closing statements of a function, from the anchor `from` to the end of its body, copied verbatim into
+                # a wrapper function whose header the prelude gives (everything before the anchor is dropped: the wrapper's
+                # parameters stand for the values computed there).  `rewrite_all` replaces every occurrence of a text
+                # (zero occurrences are fine); output macros that remain afterwards are not understood.
+                mit = find_item(loc, relfile, item["path"])
+                src = loc["src"]
+                body = src[mit["start"]:mit["body_close"]]
+                if body.count(item["from"]) != 1:
+                    raise Undecided(f"lost anchor: tail anchor `{item['from']}` occurs {body.count(item['from'])} times in {item['path']}")
+                a0 = mit["start"] + body.index(item["from"])
+                text = src[a0:mit["body_close"]]
+                for a, b in item.get("rewrite_all", []):
+                    text = text.replace(a, b)
+                if re.search(r"\b(println|print|eprintln)!", text):
+                    raise Undecided(f"{iid}: an output macro in the tail of {item['path']} is not covered by the unit's rewrite_all table")
+                deviations.append(f"{iid}: tail of `{item['path']}` from `{item['from']}`; the statements before it are dropped, output macros are rewritten to calls on the ghost output log ({len(item.get('rewrite_all', []))} patterns)")
+                slots[iid] = [("region", (iid, relfile, text.rstrip() + "\n"))]
             elif item.get("kind") == "raw":
                 # a non-function item copied verbatim (struct / enum / const / type)
                 mit = find_item(loc, relfile, item["path"])
@@ -924,7 +959,7 @@ class Unit:
                 if mi.group(1) not in has:
                     raise Undecided(f"unit {self.name}: prelude asks IFMISSING {mi.group(1)}, which is not an optional method of an item")
                 if not has[mi.group(1)]:
-                    defaults[line] = (mi.group(1), default_files.get(mi.group(1), ""))
+                    defaults[line] = (mi.group(1), default_files.get(mi.group(1), ""), "handler not overridden (the trait's empty default applies)")
                     emit(mi.group(2) + "    // the trait's default (the impl does not override it)\n")
                 else:
                     emit("\n")
@@ -949,6 +984,11 @@ class Unit:
             for kind2, obj in slots[arg]:
                 if kind2 == "text":
                     emit(obj)
+                elif kind2 == "region":
+                    l0 = line
+                    emit(obj[2])
+                    for ln in range(l0, line + 1):
+                        defaults[ln] = (obj[0], obj[1], "tail of the function")
                 else:
                     ef = obj
                     ef.gen_line_start = line
